@@ -2754,9 +2754,36 @@ impl<'a> CodeGenerator<'a> {
                 let last_pattern = if tail_cases.is_empty() {
                     *default.as_ref().unwrap().clone()
                 } else {
-                    let tree = tail_cases.last().unwrap();
+                    // NOTE: tail cases come in the order of the clauses; lists longer than any
+                    // pattern belong to the tail case with the most elements.
+                    let tree = tail_cases
+                        .iter()
+                        .max_by_key(|(case, _)| match case {
+                            CaseTest::ListWithTail(i) => *i,
+                            _ => unreachable!(),
+                        })
+                        .unwrap();
 
                     tree.1.clone()
+                };
+
+                // A list of exactly `index` elements is handled by the case for that length
+                // or else by the tail case with the most elements that it still satisfies.
+                let find_list_case = |index: usize| {
+                    cases
+                        .iter()
+                        .find(|x| matches!(x.0, CaseTest::List(i) if i == index))
+                        .or_else(|| {
+                            tail_cases
+                                .iter()
+                                .filter(|x| matches!(x.0, CaseTest::ListWithTail(i) if i <= index))
+                                .max_by_key(|x| match x.0 {
+                                    CaseTest::ListWithTail(i) => i,
+                                    _ => unreachable!(),
+                                })
+                        })
+                        .cloned()
+                        .unwrap_or_else(|| (CaseTest::Wild, *default.as_ref().unwrap().clone()))
                 };
 
                 let builtins_for_pattern = builtins_path.merge(Builtins::new_from_list_case(
@@ -2778,18 +2805,7 @@ impl<'a> CodeGenerator<'a> {
                     (builtins_for_pattern, last_pattern),
                     |(mut builtins_for_pattern, acc), list_item| match list_item {
                         itertools::Position::First(index) | itertools::Position::Only(index) => {
-                            let (_, tree) = cases
-                                .iter()
-                                .chain(tail_cases.iter())
-                                .find(|x| match x.0 {
-                                    CaseTest::List(i) => i == index,
-                                    CaseTest::ListWithTail(i) => i <= index,
-                                    _ => unreachable!(),
-                                })
-                                .cloned()
-                                .unwrap_or_else(|| {
-                                    (CaseTest::Wild, *default.as_ref().unwrap().clone())
-                                });
+                            let (_, tree) = find_list_case(index);
 
                             let tail_name = if builtins_for_pattern.is_empty() {
                                 subject_name.clone()
@@ -2820,18 +2836,7 @@ impl<'a> CodeGenerator<'a> {
                         }
 
                         itertools::Position::Middle(index) | itertools::Position::Last(index) => {
-                            let (_, tree) = cases
-                                .iter()
-                                .chain(tail_cases.iter())
-                                .find(|x| match x.0 {
-                                    CaseTest::List(i) => i == index,
-                                    CaseTest::ListWithTail(i) => i <= index,
-                                    _ => unreachable!(),
-                                })
-                                .cloned()
-                                .unwrap_or_else(|| {
-                                    (CaseTest::Wild, *default.as_ref().unwrap().clone())
-                                });
+                            let (_, tree) = find_list_case(index);
 
                             let tail_name = if builtins_for_pattern.is_empty() {
                                 subject_name.clone()
